@@ -660,32 +660,46 @@ def check(ctx, run):
     run.ob("R10", "pruning primitives of the candidate list found", ELIST, len(used) >= 4, witness=sorted(used))
 
     # ---------------- R9 ----------------------------------------------------
+    # effect coverage, decided on folds: every marker method folded on an expectation with two input and two output parameters; what it
+    # changes (members of the expectation, the matched flag of a parameter) must be changed back by the reset, folded on the same model
     markers = ["wasPassedToObject", "finalizeActualCallMatch", "inputParameterWasPassed", "outputParameterWasPassed"]
     rs = prog.fn(EC + "::resetActualCallMatchingState")
     run.analysed(rs)
-    reset_fields = {l for l, r, n in assignments(rs)}
-    reset_lists = set()
-    for lp in [n for n in rs.walk() if n["k"] == "ForStmt"]:
-        body_calls = [render(rs, c) for c in rs.calls(lp)]
-        if any(c.endswith("->setMatchesActualCall(false)") for c in body_calls):
-            for c in body_calls:
-                m = re.match(r"^(\w+)->begin\(\)$", c)
-                if m:
-                    reset_lists.add(m.group(1))
+    LISTS = {6001: [611, 612], 6002: [621, 622]}
+    NAMES = {611: "p1", 612: "p2", 621: "p1", 622: "p2"}
+    ECF = {fl["name"] for fl in prog.records.get(EC, {}).get("fields", [])}
+
+    def fold_effects(f, args):
+        flags = []
+        nodes = [x for l_ in LISTS.values() for x in l_]
+        hooks = string_hooks({"MockNamedValueList::begin": lambda o=None, *a_: (LISTS.get(o) or [0])[0],
+                              "MockNamedValueListNode::next": lambda o=None, *a_: next((l_[l_.index(o) + 1] if l_.index(o) + 1 < len(l_) else 0) for l_ in LISTS.values() if o in l_) if o in nodes else None,
+                              "MockNamedValueListNode::getName": lambda o=None, *a_: ("str", NAMES.get(o, "?")), "MockNamedValueListNode::item": lambda o=None, *a_: (o + 1000) if o in nodes else None,
+                              EC + "::MockExpectedFunctionParameter::setMatchesActualCall": lambda o=None, *a_: (flags.append((o, int(bool(a_[-1])) if a_ else None)), 0)[1]})
+        env = {"this": 100, "inputParameters_": 6001, "outputParameters_": 6002, "isSpecificObjectExpected_": 1, "wasPassedToObject_": 0, "isActualCallMatchFinalized_": 0}
+        env.update(dict(zip([q["name"] for q in f.params], args)))
+        ev = Evaluator(prog, f, env=env, calls=hooks)
+        ev.pass_object = True
+        ev.heap_mode = True
+        try:
+            ev.run_blocks(f.entry, max_steps=2000)
+        except Unknown as u:
+            raise AnalysisBroken("C08.R9: %s cannot be folded on the parameter-list model: %s" % (f.qn, u))
+        written = {k_ for k_, v_ in ev.stores if k_.split(".")[0].split("[")[0] in ECF}
+        return written, flags
+    try:
+        r_fields, r_flags = fold_effects(rs, [])
+    except AnalysisBroken:
+        raise
+    cleared = {o for o, v in r_flags if v == 0}
     for mk in markers:
         f = prog.fn(EC + "::" + mk)
         run.analysed(f)
-        fields = {l for l, r, n in assignments(f)}
-        lists = set()
-        for lp in [n for n in f.walk() if n["k"] == "ForStmt"]:
-            bc = [render(f, c) for c in f.calls(lp)]
-            if any(c.endswith("->setMatchesActualCall(true)") for c in bc):
-                for c in bc:
-                    m = re.match(r"^(\w+)->begin\(\)$", c)
-                    if m:
-                        lists.add(m.group(1))
-        miss = sorted((fields - reset_fields) | (lists - reset_lists))
-        run.ob("R9", "state set by %s is reset by resetActualCallMatchingState" % mk, rs.site, not miss and bool(fields or lists), witness={"sets": sorted(fields | lists), "reset": sorted(reset_fields | reset_lists)},
+        fields, flags = fold_effects(f, [("str", "p1")] * len(f.params))
+        set_ = {o for o, v in flags if v == 1}
+        miss = sorted(fields - r_fields) + sorted("the matched flag of parameter %s" % (o,) for o in set_ - cleared)
+        run.ob("R9", "state set by %s is reset by resetActualCallMatchingState (both folded on an expectation with two input and two output parameters)" % mk, rs.site, not miss and bool(fields or set_),
+               witness={"sets": sorted(fields) + sorted(map(str, set_)), "reset": sorted(r_fields) + sorted(map(str, cleared))},
                what="" if not miss else "%s stays set after the call it was matched for: a later call is matched although it did not pass it" % miss)
     got = {}
     for spec in (0, 1):
